@@ -257,6 +257,7 @@ func StrictFAT2(content []byte, knownTicker func(string) bool) Verdict {
 				return reject("transfers is not an array", false)
 			}
 			st.HasXfers = true
+			sum := new(big.Int)
 			for _, o := range xf.items {
 				if o.kind != 'o' {
 					return reject("transfer is not an object", false)
@@ -272,11 +273,16 @@ func StrictFAT2(content []byte, knownTicker func(string) bool) Verdict {
 				if err := ofa.Set(oa.str); err != nil {
 					return reject("transfer address invalid", false)
 				}
-				oamt, v := amountOf(o.get("amount"), false)
+				oamt, v := amountOf(o.get("amount"), true)
 				if v != nil {
 					return *v
 				}
+				sum.Add(sum, new(big.Int).SetUint64(oamt))
 				st.Outs = append(st.Outs, StrictOut{oa.str, oamt})
+			}
+			// exact amounts: what leaves the input is what the outputs receive, computed without wrap-around
+			if sum.Cmp(new(big.Int).SetUint64(st.Amount)) != 0 {
+				return reject("transfer amounts do not add up to the input amount", true)
 			}
 		}
 		inputs[st.From] = true
